@@ -10,11 +10,23 @@ def run_config(chk, tier, cfgname):
                 "{White, WhiteWeak} for Gc and GcWeak; resurrect turns a dead undestructed object Gray and queued "
                 "(so gray_remaining is true, the arena reports Marking, and by O5 sweeping cannot start before its "
                 "closure is marked); GcWeak::resurrect returns None exactly for destructed targets; start_sweeping "
-                "ends Sweeping; Finalization handles are only produced for MarkedArena::finalize.")
+                "ends Sweeping; Finalization handles are only produced for MarkedArena::finalize. Marking is complete when "
+                "the MarkedArena is handed out: the marking-side tri-colour obligations (trace, mark_one, the four write "
+                "barriers, the root barrier, every sanctioned adoption path) hold on every abstract pre-state.")
     chk.not_decided += ["'is_dead is true exactly for the unreachable objects' on concrete graphs (needs exact user "
                         "traces + the global theorem)"]
     for t in ("gc_is_dead", "weak_is_dead", "resurrect", "weak_resurrect", "gray_remaining"):
         typestate.apply(chk, t + "-table", t, aspects=("safety", "reporting"))
+    # "no strongly reachable object reports is_dead when a MarkedArena is handed out" needs marking to be complete at
+    # that point: the marking half of the tri-colour obligations (tracing a child never leaves it unmarked, blackening
+    # is complete or undone, write / root barriers and the sanctioned adoption paths re-establish the invariant) are
+    # premises of this property as much as of C01 (seed C07-c: a strong backward barrier that ignores weakly marked
+    # children leaves a stashed, rooted object dead in the eyes of the finalizer)
+    for t in ("trace", "mark_one", "backward_barrier", "backward_barrier_weak", "forward_barrier", "forward_barrier_weak",
+              "root_barrier"):
+        typestate.apply(chk, "marking-complete:" + t, t, aspects=("safety",))
+    typestate.apply(chk, "marking-complete:adoption-paths", "adopt", aspects=("safety",))
+    typestate.apply(chk, "marking-complete:root-paths", "root_paths", aspects=("safety",))
     common.protocol_rows(chk, prog, "marked-arena-protocol", ["mark_debt", "finish_marking", "start_sweeping"], aspects=("handout",))
     prog.edges()
     # Finalization only for MarkedArena holders
